@@ -10,6 +10,7 @@ CONSTANTS
     Mode = "mc"
     Depth = 0
     Eager = FALSE
+    SSHook = FALSE
 INVARIANTS ReturnOnlyWhenIdle ListensUntilShutdown CounterExact OwnResponsesOnly SocketFile
 PROPERTIES StopsOnlyAfterAnIdlePeriod StopsOnlyWhenIdleNow EventuallyReturnsWhenIdle
 CHECK_DEADLOCK FALSE
